@@ -1029,3 +1029,84 @@ Proof.
   unfold eq_up_to_stamp, db_nostamp, db_of. cbn [d_users d_apps d_trks db_users db_apps db_trks set_car_memo].
   rewrite U1, U2, U3. reflexivity.
 Qed.
+(* 10. one block: gatekeeper, watcher and responder composed *)
+Lemma delete_memo t us r t' : gk_delete_appointments t us r = Ok tt t' -> car_memo t' = car_memo t /\ car_height t' = car_height t.
+Proof.
+  unfold gk_delete_appointments. destruct r.
+  - destruct (refund_loop t us) as [[] t1|] eqn:E; cbn [bind]; [|discriminate]. intros H; inversion H; subst.
+    assert (G : eng t1 = eng t).
+    { clear H. revert t t1 E. induction us as [|uuid us IH]; intros t t1; cbn [refund_loop]; [intros H; inversion H; reflexivity|].
+      destruct (find_app _ _) as [a|]; [|discriminate]. destruct (gk_get _ _) as [ui|]; [|discriminate].
+      destruct (u32_add _ _) as [s|]; [|discriminate]. intros H. apply IH in H. exact H. }
+    unfold eng in G. inversion G. split; reflexivity.
+  - intros H; inversion H; split; reflexivity.
+Qed.
+
+Lemma w_coherent sc t hash txs h t' :
+  memo_coherent sc t -> w_block_connected sc t (cache_block hash txs) h = Ok tt t' -> memo_coherent sc t'.
+Proof.
+  intros Hc. unfold w_block_connected.
+  destruct (ti_update (w_cache t) (cache_block hash txs)) as [c|]; [|discriminate].
+  set (t1 := set_w_cache t c).
+  destruct (breach_loop sc _ t1 []) as [inv t2|] eqn:E; cbn [bind]; [|discriminate].
+  assert (Hc1 : memo_coherent sc t1) by (eapply memo_coherent_fr; [| |exact Hc]; reflexivity).
+  destruct (bl_pure sc _ t1 [] inv t2 Hc1 E) as [_ [_ [C _]]].
+  destruct inv as [|i0 is]; cbn [bind].
+  - intros H; inversion H; subst. eapply memo_coherent_fr; [| |exact C]; reflexivity.
+  - destruct (gk_delete_appointments t2 (i0 :: is) false) as [[] t3|] eqn:D; cbn [bind]; [|discriminate].
+    intros H; inversion H; subst. destruct (delete_memo _ _ _ _ D) as [M1 M2].
+    eapply memo_coherent_fr; [| |exact C]; cbn; assumption.
+Qed.
+
+Lemma coherent_sound sc t : memo_coherent sc t -> memo_sound sc t.
+Proof. intros Hc tx r Hr. rewrite (Hc tx r Hr). split; [reflexivity|intros hh; apply send_status_not_conf]. Qed.
+
+(* ONE BLOCK REPLAYED.  Poll-boundary state tA; first attempt with the node answering sc1, killed after the purge and any
+   number j of the watcher's tracker inserts (j = all of them: the kill is anywhere up to the watcher's DELETE);
+   restart; the same block with the node answering sc2: outside the recorded class (replay_ok) and with stable rejections
+   (rej_stable) the tables after the block are those of the uninterrupted run up to the stamp of unconfirmed trackers *)
+Theorem replay_block le sc1 sc2 tA hash txs j tg tw tr tBw tBr :
+  Inv tA -> at_poll_boundary tA ->
+  gk_block_connected tA (gk_height tA + 1) = Ok tt tg ->
+  w_block_connected sc1 tg (cache_block hash txs) (gk_height tA + 1) = Ok tt tw ->
+  r_block_connected le sc1 tw (index_block hash txs) (gk_height tA + 1) = Ok tt tr ->
+  let dB := execs (db_of tg) (firstn j (w_inserts sc1 tg txs)) in
+  replay_ok tg dB txs sc1 sc2 -> rej_stable tA sc1 sc2 ->
+  gw_connected sc2 (restart tA dB) hash txs = Ok tt tBw ->
+  r_block_connected le sc2 tBw (index_block hash txs) (gk_height tA + 1) = Ok tt tBr ->
+  eq_up_to_stamp (db_of tBr) (db_of tr).
+Proof.
+  intros HI HB HG HW HR dB Hok Hst HGW HRB.
+  destruct (replay_block_upto_responder sc1 sc2 tA hash txs j tg tw tBw HI HB HG HW Hok HGW) as [Ed [Ei [Eh [Er _]]]].
+  destruct HB as [Hre Hm].
+  assert (HIg : Inv tg).
+  { pose proof (gk_block_connected_pres Inv (sa_block Inv inv_stable) tA (gk_height tA + 1) HI) as H. rewrite HG in H. exact H. }
+  destruct (gk_block_frame _ _ _ HG) as [G1 [G2 [G3 [G4 _]]]].
+  destruct (w_block_connected_frame sc1 tg hash txs _ tw HIg HW) as [_ [Wu [Wg [_ [_ [_ [_ [Wr _]]]]]]]].
+  (* the replay's gatekeeper map is the purged table *)
+  assert (Hgk : forall u, aget (gk_users tBw) u = aget (gk_users tw) u).
+  { revert HGW. unfold gw_connected. change (gk_height (restart tA dB)) with (gk_height tA).
+    pose proof (ins_only_w sc1 tg txs) as Hio.
+    assert (HP : ins_only (firstn j (w_inserts sc1 tg txs))).
+    { apply Forall_forall. intros s Hs. unfold ins_only in Hio. rewrite Forall_forall in Hio. apply Hio. eapply in_firstn. exact Hs. }
+    destruct (execs_ins_keeps _ HP (db_of tg)) as [Ku _]. fold dB in Ku.
+    assert (Hgu : gk_users (restart tA dB) = db_users tg) by (change (gk_users (restart tA dB)) with (d_users dB); rewrite Ku; reflexivity).
+    rewrite (gatekeeper_replay_done tA (gk_height tA + 1) tg (restart tA dB) HI HG eq_refl Hgu). cbn [bind]. intros HWB.
+    assert (HIr : Inv (set_gk_height (restart tA dB) (gk_height tA + 1))).
+    { eapply inv_frame; [|apply recover_inv; unfold dB; apply execs_inv; apply dbinv_of_inv; exact HIg]. repeat split. }
+    destruct (w_block_connected_frame sc2 _ hash txs _ tBw HIr HWB) as [_ [_ [Vg _]]].
+    intros u. rewrite Vg, Wg. change (gk_users (set_gk_height (restart tA dB) (gk_height tA + 1))) with (gk_users (restart tA dB)).
+    rewrite Hgu. symmetry. apply (inv_sync tg HIg). }
+  apply (responder_replay le sc1 sc2 tw tBw (index_block hash txs) (gk_height tA + 1) tr tBr).
+  - repeat split; [exact Ed|exact Hgk|exact Er].
+  - rewrite Wr, G4. exact Hre.
+  - exact Ei.
+  - apply coherent_sound. apply (w_coherent sc1 tg hash txs (gk_height tA + 1) tw); [|exact HW]. apply memo_nil_coherent. rewrite G3. exact Hm.
+  - apply coherent_sound. revert HGW. unfold gw_connected.
+    destruct (gk_block_connected (restart tA dB) (gk_height (restart tA dB) + 1)) as [[] tgB|] eqn:EG; cbn [bind]; [|discriminate].
+    intros HWB. apply (w_coherent sc2 tgB hash txs (gk_height (restart tA dB) + 1) tBw); [|exact HWB]. apply memo_nil_coherent.
+    destruct (gk_block_frame _ _ _ EG) as [_ [_ [B3 _]]]. rewrite B3. reflexivity.
+  - intros tx. rewrite (rejected_height_indep tw tA), (rejected_height_indep tw tA (snd (script_get sc1 tx))). apply Hst.
+  - exact HR.
+  - exact HRB.
+Qed.
